@@ -13,3 +13,4 @@ pub mod celem;
 pub mod vec_eng;
 pub mod str_eng;
 pub mod coll_eng;
+pub mod c19;
